@@ -77,7 +77,7 @@ func (r *evalRun) exec(q string) (hx.Result, *hx.Failure) {
 	r.queries++
 	res := r.n.Exec(q)
 	if res.Panic != "" {
-		return res, hx.Failf("C08/panic/"+hx.PanicSite(res.Panic), "%s panicked: %.1500s", q, res.Panic)
+		return res, hx.Failf(panicSig(res.Panic), "%s panicked: %.1500s", q, res.Panic)
 	}
 	if !res.OK() {
 		if res.Err() == "key not found" && aggNotRe.MatchString(q) {
